@@ -143,7 +143,7 @@ pub struct Ctx {
 impl Ctx {
     /// Path text with the absolute world root replaced by `$R` so logs compare across processes.
     pub fn norm(&self, p: &Path) -> String {
-        norm_text(&p.to_string_lossy(), &self.root_text)
+        norm_text(&from_os(p.as_os_str()), &self.root_text)
     }
 }
 
@@ -592,7 +592,7 @@ fn install_order(w: &Walker, cwd: &str, root_text: &str) {
             let root_text = root_text.to_string();
             Some(Arc::new(move |a: &Path, b: &Path| -> Ordering {
                 let class = |p: &Path| -> u8 {
-                    let t = norm_text(&p.to_string_lossy(), &root_text);
+                    let t = norm_text(&from_os(p.as_os_str()), &root_text);
                     let v = to_world(&t, &cwd).map_or(false, |wp| victims.contains(&wp));
                     match (v, first) {
                         (true, true) => 0,
@@ -627,7 +627,7 @@ pub fn build_walker(
         return Err("too many layers".to_string());
     }
     install_order(w, cwd, &world.root_text);
-    let base = PathBuf::from(base_text(w, cwd, &world.root_text));
+    let base = PathBuf::from(to_os(&base_text(w, cwd, &world.root_text)));
     let beh = behavior(w, &world.root_text)?;
     let res = match &w.source {
         Source::Path => {
